@@ -17,10 +17,10 @@ EXTENDS Lexer, TLC, Json
 CONSTANTS MaxLen, Symbols
 
 VARIABLE syms
-MCKnown == { <<"s","i","z","e">>, <<"n","a","m","e">>, <<"l","e","n">> }
+MCKnown == { <<"s","i","z","e">>, <<"n","a","m","e">>, <<"l","e","n">>, <<"l","i","n","e","_","c","o","u","n","t">> }
 Expand(sy) == CASE sy = "FROM" -> <<"f","r","o","m">> [] sy = "WHERE" -> <<"w","h","e","r","e">> [] sy = "ORDER" -> <<"o","r","d","e","r">>
                 [] sy = "BY" -> <<"b","y">> [] sy = "NOT" -> <<"N","o","t">> [] sy = "AND" -> <<"a","n","d">> [] sy = "ASC" -> <<"a","s","c">>
-                [] sy = "size" -> <<"s","i","z","e">> [] sy = "ab" -> <<"a","b">> [] sy = "12" -> <<"1","2">>
+                [] sy = "size" -> <<"s","i","z","e">> [] sy = "line_count" -> <<"l","i","n","e","_","c","o","u","n","t">> [] sy = "ab" -> <<"a","b">> [] sy = "12" -> <<"1","2">>
                 [] sy = "date" -> <<"2","0","1","7","-","0","5">> [] sy = "gte" -> <<"g","t","e">> [] sy = "mul" -> <<"m","u","l">>
                 [] OTHER -> <<sy>>
 RECURSIVE ExpandAll(_)
